@@ -295,7 +295,7 @@ def _zdecompress_decompress(ip, z, args, kw):
     st.hyps.append(out.wf())
     g = st.ghost[z.key]
     g['eof'] = fresh('zeof', B)     # after any input the stream may have reached a BFINAL block
-    zlog(st, z).append(('decompress', b, out))
+    zlog(st, z).append(('decompress', b, out, st.ghost.get('comp_ctx')))
     return out
 
 
